@@ -7,6 +7,7 @@ import (
 	"crypto/rand"
 	"errors"
 	"fmt"
+	"math"
 	"math/bits"
 	"sync"
 	"sync/atomic"
@@ -306,6 +307,10 @@ func (s *EncryptionSession) Out(prio bool) (
 	seqNum, rollover := sh.NextOut()
 	if rollover {
 		if prio {
+			// The priority sequence never rolls the key over on its own: stay at the
+			// end of the sequence until the regular sequence rolls the key over,
+			// so that no sequence number is used twice with the same key.
+			sh.outSeq.Store(math.MaxUint32)
 			return 0, 0, 0, nil, errors.New("prio sequence handler requested key rollover")
 		}
 		// A new outgoing key restarts the outgoing priority sequence.
